@@ -85,6 +85,12 @@ CHECKS["C12"] = ("model_checking",
     "Cluster names do not contain '::' or '#'; module/function names are dotted identifiers; a callee that only moved to another cluster is not counted as vanished.",
     "DESIGN.md §3 C12")
 
+CHECKS["C15"] = ("model_checking",
+    "bounded-exhaustive enumeration of batches x pre-memoized subsets (cache-resident or disk-only) x options x backends on the real runner; differential oracle = twin store driven by individual calls",
+    "Every batch of length 0..3 (quick) / 0..4 (thorough) over {0,1,2, failing, not-to-be-memoized failing} with duplicates, for every subset of its memoizable elements memoized beforehand (on the cached backend each one either resident in the cache or only on disk after reopening), with raise_first_exception true/false, with no / positional / keyword partial prefix, through call_batch and map_over_range, on memory, filesystem and filesystem+cache backends, is compared slot by slot (values, exception class and message, which exception is raised), by body-run counts per element, and by the final store contents with element-wise evaluation on a twin store.",
+    "Element alphabet of 5; one function of two parameters; the local runner.",
+    "DESIGN.md §3 C15")
+
 PENDING = {}
 
 
